@@ -178,6 +178,14 @@ func execute(t *testing.T, prop string, c simrt.Case) (out simrt.Outcome) {
 					genuine = !differs(o.Proof.Aunts, orig.Proof.Aunts)
 				}
 			}
+			// what counts is what arrives: a copy that ends up byte- and proof-identical to the
+			// sender's part at the claimed index (equal neighbouring parts) is that genuine part
+			if p.Index >= 0 && p.Index < total {
+				g := sender.GetPart(p.Index)
+				genuine = bytes.Equal(g.Bytes, p.Bytes) && !differs(g.Proof.Aunts, p.Proof.Aunts)
+			} else {
+				genuine = false
+			}
 			if !genuine {
 				out.Faults["mutated_part:"+a.S]++
 			}
